@@ -58,6 +58,18 @@ CLAIMED = {
               "degenerate inverse for large radii), see known_findings.json."),
         technique="Lean 4 proof (field_simp/ring/nlinarith, induction on the segment loop) + Float bit correspondence + independent evaluator search",
         ref="DESIGN.md §4 C12"),
+    "C13": dict(
+        text=("Lean 4 theorems, relative to Spec.EngineSpec (the assumed behaviour of Skia's binary op and simplify on generic "
+              "points): for ANY number of operands the interior of _do_pathop's result is the left-fold set combination of the "
+              "operands' interiors, each built with its own fill rule, and is the same under nonzero and evenodd; single operand = "
+              "simplify only; empty list yields no path; no engine error is swallowed; wrapper rule selection. The model's "
+              "predicted engine-call expression is compared with the expression recorded from the real pathops calls, and the set "
+              "law is sampled on the implementation with an independent winding-number evaluator. Partial by construction: Skia's "
+              "own correctness is a hypothesis."),
+        note=("Trusted: Lean kernel; no axioms beyond propext (core only); Spec/Region.lean; the EngineSpec hypotheses (validated by "
+              "sampling, epsilon band 2% of extent); harness/geom.py; harness/skia_trace.py."),
+        technique="Lean 4 proof relative to an engine specification (induction on the operand list) + recorded-call expression correspondence + sampled set law",
+        ref="DESIGN.md §4 C13"),
 }
 
 def main():
